@@ -357,8 +357,19 @@ def _run(prop, trace, log, stats):
             got = {k[0] for k in reached if k is not None}
             missing = [sorted(w) for w in want - got]
             if missing:
-                raise Viol('C14/architecture-unreachable', f'{len(missing)} admitted architectures are not the decode of any '
-                                                           f'vector of the fast encoder, e.g. nodes {missing[0]}')
+                tag = ''
+                if spec.get('constraints'):
+                    # are all missing architectures ones in which a choice constraint actually binds (>= 2 members of a
+                    # constrained group active together)? Otherwise the loss has nothing to do with constrained combinations
+                    by_nodes = {}
+                    for nodes, a in spec_obj.enumerate(limit=4000):
+                        by_nodes.setdefault(frozenset(nodes), []).append(a)
+                    if all(any(sum(1 for c in cids if c in a) >= 2 for a in by_nodes.get(w, [])
+                               for _, cids in spec['constraints']) for w in want - got):
+                        tag = '[constrained-combinations-only]'
+                raise Viol('C14/architecture-unreachable' + tag,
+                           f'{len(missing)} admitted architectures are not the decode of any '
+                           f'vector of the fast encoder, e.g. nodes {missing[0]}')
             try:
                 pc, dvc, encc = make_processor(spec, trace['ids_seed'] + 13, {'kind': 'complete'}, collections.Counter())
                 res = pc.get_all_discrete_x()
@@ -397,7 +408,9 @@ def generate(prop, seed, tier, modes, conn_share=0.0, constraint_share=0.0):
                     spec['incompat'].append([x, y])
     spec = gen_dsg.clean_incompat(spec)
     if constraint_share and rng.random() < constraint_share:
-        spec = gen_dsg.add_linked_constraint(rng, spec, hierarchical=False)
+        # half of the linked groups stay among permanently active choices, the others may contain conditionally active
+        # members (the group always has a permanent anchor)
+        spec = gen_dsg.add_linked_constraint(rng, spec, hierarchical=rng.random() < 0.5)
         if spec.get('constraints'):
             spec['incompat'] = []  # linked choices are not combined with incompatibilities (fast-encoder quirks, 9.3)
     spec = gen_dsg.add_dv_metrics(rng, spec, n_metric_max=0)
@@ -486,6 +499,7 @@ COMPONENTS = {'real': ['adsg_core GraphProcessor, complete and fast hierarchy an
                        'raise MemoryError)', 'MemoryError injected at allocating numpy calls (memory-save mode)',
                        'identity of id-less nodes (seeded)', 'private cache directory, seeded np.random']}
 ASSUMPTIONS = ['R-sem / R-conn are the documented semantics; at least one source connector of a connection choice is '
-               'permanent (the choice is always active); choice constraints are not generated.',
+               'permanent (the choice is always active); of the choice constraints only LINKED is generated (between selection '
+               'choices, at least one of them permanently active).',
                'Declared spaces are decoded exhaustively up to 300 (quick) / 2000 (thorough) vectors, else sampled.',
                'Small graphs (<= 12 named nodes, <= 4 selection choices, <= 1 connection choice of <= 3x3 or 2 of <= 2x2 connectors).']
